@@ -102,6 +102,9 @@ Proof.
     + eapply t_trans; eauto. now apply t_step.
 Qed.
 
+Scheme Eval_mind := Minimality for Eval Sort Prop
+  with EvalL_mind := Minimality for EvalL Sort Prop.
+
 (** * The bridge *)
 Section Bridge.
 Variable V : Type.
@@ -297,4 +300,144 @@ Proof.
         apply (parents_iff _ _ Hcn). exists y. split; [now rewrite Ec | reflexivity].
 Qed.
 
+(** * The from-scratch value, by name: [scratch] on the built graph is the order-free relation [Eval]
+    on the definitions. *)
+(** the independent values a table of the State holds, by name *)
+Definition by_name (vs : vals V) : nat -> option V := fun x => vs (pos x).
+
+Lemma def_at x : x < n -> nth_error defs x = Some (nth x defs d_default).
+Proof. intros H. now apply nth_error_nth'. Qed.
+
+Lemma linked_eq k : linked gS k = d_linked (nth (nm k) defs d_default).
+Proof. reflexivity. Qed.
+Lemma F_eq k : F gS k = d_fun v0 (nth (nm k) defs d_default).
+Proof. reflexivity. Qed.
+
+Lemma params_lt x p : In p (d_params (nth x defs d_default)) -> p < n /\ x < n.
+Proof.
+  intros H. apply edge_lt. unfold DagModel.edge. now rewrite dag_parents.
+Qed.
+
+Theorem scratch_sound_by_name (vs : vals V) : forall k v, k < n ->
+  scratch gS vs k = Some v -> Eval defs (by_name vs) (nm k) v.
+Proof.
+  intros k. induction k as [k IH] using lt_wf_ind. intros v Hk Hs.
+  assert (Hkg : k < gn gS) by (now rewrite gn_gS).
+  rewrite (scratch_unfold V gS built_graph_WF vs k Hkg) in Hs.
+  pose proof (nm_lt k Hk) as Hx.
+  rewrite linked_eq, F_eq, parents_eq in Hs.
+  destruct (nth (nm k) defs d_default) as [hv|a|a ps f] eqn:Ed; simpl d_linked in Hs; simpl d_fun in Hs; simpl d_params in Hs.
+  - eapply EvIndep; [rewrite (def_at _ Hx), Ed; reflexivity | reflexivity|].
+    unfold by_name. fold ord. change (index_of (nm k) ord) with (pos (nm k)). now rewrite (pos_nm k Hk).
+  - eapply EvIndep; [rewrite (def_at _ Hx), Ed; reflexivity | reflexivity|].
+    unfold by_name. fold ord. change (index_of (nm k) ord) with (pos (nm k)). now rewrite (pos_nm k Hk).
+  - destruct (mapM (scratch gS vs) (map pos ps)) as [args|] eqn:Hm; [|discriminate].
+    injection Hs as <-.
+    eapply EvLinked; [rewrite (def_at _ Hx), Ed; reflexivity|].
+    assert (Hps : forall p, In p ps -> p < n /\ pos p < k).
+    { intros p Hp. assert (Hpn : p < n) by (apply (params_lt (nm k) p); now rewrite Ed).
+      split; [exact Hpn|]. apply (wf_parents_lt built_graph_WF k (pos p) Hkg).
+      rewrite parents_eq. fold nm. rewrite Ed. cbn [d_params]. now apply in_map. }
+    clear Ed. apply (mapM_some V) in Hm.
+    revert args Hm. induction ps as [|p ps IHp]; intros args Hm; inversion Hm as [|? w ? ws Ew Ews]; subst.
+    + constructor.
+    + destruct (Hps p (or_introl eq_refl)) as [Hpn Hpk]. constructor.
+      * rewrite <- (proj2 (nm_pos p Hpn)). apply IH; [exact Hpk | apply (nm_pos p Hpn) | exact Ew].
+      * apply IHp; [intros q Hq; apply Hps; now right | exact Ews].
+Qed.
+
+Theorem scratch_complete_by_name (vs : vals V) : forall x v,
+  Eval defs (by_name vs) x v -> x < n -> scratch gS vs (pos x) = Some v.
+Proof.
+  apply (Eval_mind V defs (by_name vs)
+           (fun x v => x < n -> scratch gS vs (pos x) = Some v)
+           (fun ps args => (forall p, In p ps -> p < n) -> mapM (scratch gS vs) (map pos ps) = Some args)).
+  - intros x d v Hd Hl Hv Hx.
+    destruct (nm_pos x Hx) as [Hp Ex].
+    rewrite (scratch_unfold V gS built_graph_WF vs (pos x)) by (now rewrite gn_gS).
+    rewrite linked_eq. fold pos in Ex. unfold nm. unfold nm in Ex. rewrite Ex.
+    rewrite (def_at x Hx) in Hd. injection Hd as ->. rewrite Hl. exact Hv.
+  - intros x a ps f args Hd _ IHl Hx.
+    destruct (nm_pos x Hx) as [Hp Ex].
+    rewrite (scratch_unfold V gS built_graph_WF vs (pos x)) by (now rewrite gn_gS).
+    rewrite linked_eq, F_eq, parents_eq. unfold nm. unfold nm in Ex. fold pos in Ex. rewrite Ex.
+    rewrite (def_at x Hx) in Hd. injection Hd as Ed. rewrite Ed. cbn [d_linked d_params d_fun].
+    rewrite IHl; [reflexivity|]. intros p Hp'. apply (params_lt x p). rewrite Ed. exact Hp'.
+  - intros _. reflexivity.
+  - intros p ps v vs' _ IHp _ IHl Hall. cbn [map mapM].
+    rewrite IHp by (apply Hall; now left). rewrite IHl by (intros q Hq; apply Hall; now right). reflexivity.
+Qed.
+
+Theorem scratch_by_name (vs : vals V) k v : k < n ->
+  (scratch gS vs k = Some v <-> Eval defs (by_name vs) (nm k) v).
+Proof.
+  intros Hk. split; [now apply scratch_sound_by_name|].
+  intros H. rewrite <- (pos_nm k Hk). apply scratch_complete_by_name; [exact H | now apply (nm_lt )].
+Qed.
+
+(** the relation is a partial function *)
+Corollary Eval_deterministic ind : forall x v w, x < n -> Eval defs ind x v -> Eval defs ind x w -> v = w.
+Proof.
+  intros x v w Hx H1 H2.
+  set (vs := fun k => ind (nm k) : option V).
+  assert (E : forall y u, Eval defs ind y u -> Eval defs (by_name vs) y u).
+  { apply (Eval_mind V defs ind (fun y u => Eval defs (by_name vs) y u) (fun ps args => EvalL defs (by_name vs) ps args)).
+    - intros y d u Hd Hl Hu. eapply EvIndep; eauto. unfold by_name, vs.
+      assert (Hy : y < n) by (apply nth_error_Some; congruence).
+      fold ord. change (index_of y ord) with (pos y). now rewrite (proj2 (nm_pos y Hy)).
+    - intros y a ps f args Hd _ IHl. eapply EvLinked; eauto.
+    - constructor.
+    - intros p ps u us _ Hp _ Hl. now constructor. }
+  apply E in H1. apply E in H2.
+  apply scratch_complete_by_name in H1; [|exact Hx]. apply scratch_complete_by_name in H2; [|exact Hx]. congruence.
+Qed.
 End Bridge.
+
+(** * Histories without per-individual reverts need no hypothesis on the node functions at all.
+    [F_mix] is only used by the [RevertMask] case of the invariant; a history that contains none runs identically
+    under the semantic record whose [mix] always refuses, for which [F_mix] holds vacuously. *)
+Section NoMix.
+Variables V M IX : Type.
+Variable g : graph V.
+Variable sm : sem V M IX.
+Hypothesis wf : WF g.
+
+Definition sem_nomix : sem V M IX := mkSem (put_val sm) (fun _ _ _ => None).
+
+Lemma F_mix_nomix : F_mix g sem_nomix.
+Proof. intros k m sel olds curs news x _ _ _ _ _ _ H. discriminate H. Qed.
+
+Lemma step_nomix s o : no_partial_revert o = true -> step g sm true s o = step g sem_nomix true s o.
+Proof. destruct o; intros H; try reflexivity. discriminate H. Qed.
+
+Lemma run_nomix ops : forallb (@no_partial_revert V M IX) ops = true ->
+  forall s, run g sm true s ops = run g sem_nomix true s ops.
+Proof.
+  induction ops as [|o ops IH]; intros H s; [reflexivity|].
+  cbn [forallb] in H. apply andb_true_iff in H as [Ho H]. cbn [run].
+  rewrite (step_nomix s o Ho). destruct (step g sem_nomix true s o) as [s' x]. now rewrite (IH H s').
+Qed.
+
+Theorem read_full_reverts_nomix ops : forallb (@no_partial_revert V M IX) ops = true ->
+  forall k i st,
+    nth_error (fst (run_now g sm (init_store g) ops)) k = Some st ->
+    snd (step_now g sm (fst (run_now g sm (init_store g) ops)) (Get k i)) =
+      match scratch g (values st) i with Some v => Ok v | None => Err InputError end.
+Proof.
+  intros H k i st. unfold run_now, step_now. rewrite (run_nomix ops H).
+  rewrite (step_nomix _ (Get k i) eq_refl).
+  apply (read_after_history_now V M IX g sem_nomix wf ops F_mix_nomix).
+  now apply MaskDisciplined_no_partial.
+Qed.
+
+Theorem never_stale_full_reverts_nomix ops : forallb (@no_partial_revert V M IX) ops = true ->
+  forall k i st v,
+    nth_error (fst (run_now g sm (init_store g) ops)) k = Some st ->
+    snd (step_now g sm (fst (run_now g sm (init_store g) ops)) (Get k i)) = Ok v ->
+    scratch g (values st) i = Some v.
+Proof.
+  intros H k i st v Hst Hv. rewrite (read_full_reverts_nomix ops H k i st Hst) in Hv.
+  destruct (scratch g (values st) i); [now injection Hv as -> | discriminate].
+Qed.
+End NoMix.
+
